@@ -72,6 +72,11 @@ def ovr_fn(ovr, focus_key):
             return ABSENT
         if k == "iflt":
             return ovr["c"] if rec[focus_key] < ovr["n"] else ABSENT
+        if k == "samefloat":
+            v = rec[focus_key]
+            if isinstance(v, (int, float)) and not isinstance(v, bool) and 0 <= v < 100000:
+                return float(v)
+            return ABSENT
         raise ValueError(k)
 
     return fn
